@@ -13,6 +13,10 @@ NO_SHRINK = True
 
 
 def meta_from_lines(lines):
+    if any(l.startswith("#full resave") for l in lines):
+        # witness form of the resave half: the script loads a file that save() produced and saves it once
+        ld = [l for l in lines if l.startswith("load str ")][0]
+        return {"prog": None, "pass2": True, "first": bytes.fromhex(ld.split()[3]), "member_order_witness": True}
     if any(l.startswith("load") and "@" not in l and lines.index(l) < 4 for l in lines[:4]) or any("@" in l for l in lines):
         return {"prog": None}
     body = [l for l in lines if not l.startswith(("save", "obs", "obj", "load"))]
@@ -20,6 +24,8 @@ def meta_from_lines(lines):
 
 
 def oracle(case, impl):
+    if case.meta.get("pass2") and "first" in case.meta:
+        return oracle2(case, impl)
     for l in impl:
         if l.startswith("fault"):
             return ["fault: " + l]
@@ -63,6 +69,16 @@ def nobits_padding(p):
 def kf_c06_nobits_padding(case, impl):
     p = case.meta.get("prog")
     return p is not None and nobits_padding(p)
+
+
+def kf_c06_member_order(case, impl):
+    """a segment lists its members in an order that is not ascending by section index"""
+    if case.meta.get("member_order_witness"):
+        return True
+    p = case.meta.get("prog")
+    if p is None:
+        return False
+    return any(g["members"] != sorted(g["members"]) for g in p.segments)
 
 
 def nontrivial(case):
